@@ -58,4 +58,6 @@ res["detected_by"] = [p for p, c in checks.items() if c["rc"] != 0]
 json.dump(res, open(f"{out}/result.json", "w"), indent=1)
 print(json.dumps(res, indent=1)[:3000])
 shutil.rmtree(scratch, ignore_errors=True)
+import hashlib
+shutil.rmtree(f"/verif/build/alt/{hashlib.sha1((scratch + '/mut').encode()).hexdigest()[:10]}", ignore_errors=True)
 # restore the evidence of the real tree for the props we just ran against a mutated copy
